@@ -4,7 +4,7 @@
    (Equals, Encode, withinTolerance), index_mapping.go (Decode), encoding/flag.go.
    Only the four stdlib axioms of the real numbers that Flocq brings. *)
 From Coq Require Import Bool NArith ZArith List Lia Reals Lra.
-From Flocq Require Import Core.Core Relative IEEE754.BinarySingleNaN IEEE754.Binary IEEE754.Bits.
+From Flocq Require Import Core.Core Relative Plus_error IEEE754.BinarySingleNaN IEEE754.Binary IEEE754.Bits.
 From SK Require Import Codec.Codec Codec.CodecProofs Codec.VarfloatProofs.
 From SK Require Import Base.Prelude Base.F64 Sketch.Sketch Wire.Wire.
 Import ListNotations.
@@ -69,8 +69,9 @@ Proof.
   destruct (Binary.Bcompare 53 1024 a b) as [[ | | ]|]; cbn [CompOpp]; congruence.
 Qed.
 
-Theorem mapping_encode_decode (m : mapid) (rest : list byte) :
-  kind_ok (mk_kind m) -> flt f64_one (mk_gamma m) = true ->
+(* the decoder's test is "not (gamma <= 1)": it lets a NaN gamma through, as the Go constructors do *)
+Theorem mapping_encode_decode_gen (m : mapid) (rest : list byte) :
+  kind_ok (mk_kind m) -> fle (mk_gamma m) f64_one = false ->
   exists f body,
     enc_mapping m = f :: body /\ f = mk_flag ft_mapping (mk_kind m) /\ length body = 16%nat /\
     dec_mapping f (body ++ rest) = DOk m rest.
@@ -81,7 +82,43 @@ Proof.
   - rewrite app_length, !f64le_float_length. reflexivity.
   - rewrite dec_mapping_kind_ok by (rewrite shiftr_mapping_flag by exact Hk; exact Hk).
     rewrite <- app_assoc, !f64le_float_roundtrip.
-    rewrite (flt_fle_swap _ _ Hg), shiftr_mapping_flag by exact Hk. reflexivity.
+    rewrite Hg, shiftr_mapping_flag by exact Hk. reflexivity.
+Qed.
+
+Theorem mapping_encode_decode (m : mapid) (rest : list byte) :
+  kind_ok (mk_kind m) -> flt f64_one (mk_gamma m) = true ->
+  exists f body,
+    enc_mapping m = f :: body /\ f = mk_flag ft_mapping (mk_kind m) /\ length body = 16%nat /\
+    dec_mapping f (body ++ rest) = DOk m rest.
+Proof.
+  intros Hk Hg. apply mapping_encode_decode_gen; [exact Hk|]. apply flt_fle_swap. exact Hg.
+Qed.
+
+(* what a successful decode tells: the kind is one of the three, gamma is not <= 1, exactly 16 bytes were read *)
+Lemma DOk_inj {A} (a a' : A) (r r' : list byte) : DOk a r = DOk a' r' -> a = a' /\ r = r'.
+Proof. intros H. injection H as H1 H2. split; assumption. Qed.
+
+Lemma skipn_skipn_add {A} (n m : nat) (l : list A) : skipn n (skipn m l) = skipn (m + n) l.
+Proof.
+  revert l. induction m as [|m IH]; intros l; [reflexivity|].
+  destruct l as [|x l]; [destruct n; reflexivity|]. cbn [skipn Nat.add]. apply IH.
+Qed.
+
+Theorem mapping_decode_inv f b m rest : dec_mapping f b = DOk m rest ->
+  kind_ok (mk_kind m) /\ mk_kind m = N.shiftr f 2 /\ fle (mk_gamma m) f64_one = false /\
+  (16 <= length b)%nat /\ rest = skipn 16 b.
+Proof.
+  intros H. destruct (kind_ok_dec (N.shiftr f 2)) as [Hk|Hk].
+  2:{ rewrite (unknown_mapping_flag f b Hk) in H. discriminate. }
+  rewrite (dec_mapping_kind_ok f b Hk) in H.
+  unfold Varfloat.dec_f64le, dec_f64le_bits in H.
+  destruct (length b <? 8)%nat eqn:E1; [discriminate|].
+  destruct (length (skipn 8 b) <? 8)%nat eqn:E2; [discriminate|].
+  destruct (fle (Varfloat.f64_of_bits (le_value (firstn 8 b))) f64_one) eqn:E3; [discriminate|].
+  apply DOk_inj in H. destruct H as [Hm Hr]. subst m. cbn [mk_kind mk_gamma mk_off].
+  apply Nat.ltb_ge in E1. apply Nat.ltb_ge in E2. rewrite skipn_length in E2.
+  split; [exact Hk|]. split; [reflexivity|]. split; [exact E3|]. split; [lia|].
+  rewrite <- Hr. rewrite skipn_skipn_add. reflexivity.
 Qed.
 
 (* gamma <= 1 (or NaN gamma: then [fle] is false! see below) *)
@@ -116,7 +153,7 @@ Theorem mapping_truncated (m : mapid) f body (p s : list byte) :
 Proof.
   intros Hk He Hb Hs. destruct m as [k g o]. cbn [mk_kind] in Hk.
   unfold enc_mapping in He. cbn [mk_kind mk_gamma mk_off app] in He.
-  injection He as Hf Hbody. subst f.
+  apply cons_inj in He. destruct He as [Hf Hbody]. subst f.
   apply mapping_short_input.
   - rewrite shiftr_mapping_flag by exact Hk. exact Hk.
   - assert (HL : length body = 16%nat).
@@ -197,7 +234,7 @@ Lemma tol12_aux :
   binary_float_of_bits_aux 52 11 (Z.of_N 4427486594234968593) = F754_finite false 4951760157141521 (-92).
 Proof. vm_compute. reflexivity. Qed.
 
-Lemma tol12_R : BR tol12 = (4951760157141521 / 4951760157141521081489358848)%R.
+Lemma tol12_R : BR tol12 = (4951760157141521 / 4951760157141521099596496896)%R.
 Proof.
   unfold tol12, f64_of_bits, b64_of_bits, binary_float_of_bits.
   rewrite Binary.B2R_FF2B, tol12_aux.
@@ -306,4 +343,351 @@ Proof.
   rewrite (N.eqb_sym (mk_kind a) (mk_kind b)).
   rewrite (within_tolerance_sym _ _ tol12 Ha1 Hb1), (within_tolerance_sym _ _ tol12 Ha2 Hb2).
   reflexivity.
+Qed.
+
+(* ================================================================== *)
+(* 3. reflexivity                                                      *)
+(* ================================================================== *)
+Local Instance prec53_gt_0 : Prec_gt_0 53 := eq_refl.
+
+Lemma BR_format x : generic_format radix2 fexp64 (BR x).
+Proof. exact (Binary.generic_format_B2R 53 1024 x). Qed.
+
+Lemma BR_lt_emax x : (Rabs (BR x) < bpow radix2 1024)%R.
+Proof. exact (Binary.abs_B2R_lt_emax 53 1024 x). Qed.
+
+(* a product by a factor of magnitude at most 1 cannot overflow *)
+Lemma fmul_small a b : f_is_finite a = true -> f_is_finite b = true -> (Rabs (BR a) <= 1)%R ->
+  f_is_finite (fmul a b) = true /\ BR (fmul a b) = rnd64R (BR a * BR b).
+Proof.
+  unfold f_is_finite. intros Ha Hb H1.
+  pose proof (Binary.Bmult_correct 53 1024 eq_refl eq_refl binop_nan_pl64 mode_NE a b) as H.
+  change (Binary.Bmult 53 1024 eq_refl eq_refl binop_nan_pl64 mode_NE a b) with (fmul a b) in H.
+  change (SpecFloat.fexp 53 1024) with fexp64 in H.
+  change (round_mode mode_NE) with ZnearestE in H.
+  assert (Hlt : (Rabs (rnd64R (BR a * BR b)) < bpow radix2 1024)%R).
+  { rewrite <- round_NE_abs by apply FLT_exp_valid, prec53_gt_0.
+    apply Rle_lt_trans with (Rabs (BR b)); [|apply BR_lt_emax].
+    apply round_le_generic.
+    - apply FLT_exp_valid, prec53_gt_0.
+    - apply valid_rnd_N.
+    - apply generic_format_abs, BR_format.
+    - rewrite Rabs_mult. pose proof (Rabs_pos (BR b)) as Hb0. pose proof (Rabs_pos (BR a)) as Ha0.
+      replace (Rabs (BR b)) with (1 * Rabs (BR b))%R at 2 by lra.
+      apply Rmult_le_compat_r; assumption. }
+  rewrite Rlt_bool_true in H by exact Hlt. destruct H as (HR & HF & _).
+  split; [|exact HR]. rewrite HF, Ha, Hb. reflexivity.
+Qed.
+
+Lemma fmax_same a : fmax a a = a.
+Proof. unfold fmax. destruct (flt a a); reflexivity. Qed.
+
+Theorem within_tolerance_refl x tol :
+  f_is_finite x = true -> f_is_finite tol = true -> (0 <= BR tol <= 1)%R ->
+  within_tolerance x x tol = true.
+Proof.
+  intros Hx Ht [Ht0 Ht1]. unfold within_tolerance. rewrite orb_diag, fmax_same.
+  assert (Fa : f_is_finite (fabs x) = true) by (rewrite fabs_fin; exact Hx).
+  rewrite (feq_zero_fin x Hx).
+  destruct (Req_bool_spec (BR x) 0) as [Hz|Hnz].
+  - rewrite andb_diag. apply fle_fin_true; try assumption.
+    rewrite fabs_R, Hz, Rabs_R0. exact Ht0.
+  - destruct (fsub_fin_cases x x Hx Hx) as [(F1 & R1 & _)|[_ G1]].
+    + destruct (fmul_small tol (fabs x) Ht Fa) as [F2 R2].
+      { rewrite Rabs_pos_eq; lra. }
+      apply fle_fin_true.
+      * rewrite fabs_fin. exact F1.
+      * exact F2.
+      * rewrite fabs_R, R1, R2. replace (BR x - BR x)%R with 0%R by lra.
+        rewrite round_0 by apply valid_rnd_N. rewrite Rabs_R0.
+        apply round_ge_generic.
+        -- apply FLT_exp_valid, prec53_gt_0.
+        -- apply valid_rnd_N.
+        -- apply generic_format_0.
+        -- rewrite fabs_R. apply Rmult_le_pos; [exact Ht0|apply Rabs_pos].
+    + replace (BR x - BR x)%R with 0%R in G1 by lra.
+      rewrite round_0 in G1 by apply valid_rnd_N. rewrite Rabs_R0 in G1.
+      pose proof (bpow_gt_0 radix2 1024). lra.
+Qed.
+
+Theorem equals_refl m : map_finite m -> map_equals m m = true.
+Proof.
+  intros [Hg Ho]. unfold map_equals. rewrite N.eqb_refl.
+  pose proof tol12_bounds as Hb.
+  rewrite (within_tolerance_refl (mk_gamma m) tol12 Hg tol12_fin) by lra.
+  rewrite (within_tolerance_refl (mk_off m) tol12 Ho tol12_fin) by lra.
+  reflexivity.
+Qed.
+
+(* Go: NaN != NaN; a NaN field makes Equals false even against itself *)
+Lemma fle_nan_l a b : f_is_nan a = true -> fle a b = false.
+Proof. destruct a; try discriminate. intros _. destruct b; reflexivity. Qed.
+
+Lemma feq_nan_l a b : f_is_nan a = true -> feq a b = false.
+Proof. destruct a; try discriminate. intros _. destruct b; reflexivity. Qed.
+
+Lemma fabs_nan a : f_is_nan (fabs a) = f_is_nan a.
+Proof. destruct a; reflexivity. Qed.
+
+Lemma fsub_nan_l a b : f_is_nan a = true -> f_is_nan (fsub a b) = true.
+Proof.
+  destruct a; try discriminate. intros _.
+  unfold fsub, b64_minus, Binary.Bminus, f_is_nan. rewrite Binary.is_nan_BSN2B.
+  destruct b; reflexivity.
+Qed.
+
+Theorem within_tolerance_nan x y tol : f_is_nan x = true -> within_tolerance x y tol = false.
+Proof.
+  intros Hx. unfold within_tolerance.
+  rewrite (fle_nan_l (fabs x) tol) by (rewrite fabs_nan; exact Hx).
+  rewrite (fle_nan_l (fabs (fsub x y))) by (rewrite fabs_nan; apply fsub_nan_l; exact Hx).
+  cbn [andb]. destruct (feq x f64_zero || feq y f64_zero); reflexivity.
+Qed.
+
+Theorem equals_nan_gamma a b : f_is_nan (mk_gamma a) = true -> map_equals a b = false.
+Proof.
+  intros H. unfold map_equals. rewrite (within_tolerance_nan _ (mk_gamma b) tol12 H).
+  rewrite andb_false_r. reflexivity.
+Qed.
+
+(* ================================================================== *)
+(* 5. what the gate means over the reals                               *)
+(* ================================================================== *)
+Lemma u64_val : (/ 2 * bpow radix2 (- (53) + 1) = / 9007199254740992)%R.
+Proof. change (- (53) + 1)%Z with (-52)%Z. unfold bpow. simpl Z.pow_pos. lra. Qed.
+
+Lemma rel_err r : (bpow radix2 (-1022) <= Rabs r)%R ->
+  (Rabs (rnd64R r - r) <= / 9007199254740992 * Rabs r)%R.
+Proof.
+  intros H. rewrite <- u64_val.
+  exact (relative_error_N_FLT radix2 (-1074) 53 prec53_gt_0 (fun x => negb (Z.even x)) r H).
+Qed.
+
+(* a difference of two floats has relative rounding error 2^-53, also in the subnormal range (where it is exact) *)
+Lemma fsub_rel_err x y :
+  (Rabs (rnd64R (BR x - BR y) - (BR x - BR y)) <= / 9007199254740992 * Rabs (BR x - BR y))%R.
+Proof.
+  destruct (Rle_or_lt (bpow radix2 (-1022)) (Rabs (BR x - BR y))) as [H|H].
+  - apply rel_err. exact H.
+  - rewrite round_generic.
+    + replace (BR x - BR y - (BR x - BR y))%R with 0%R by lra. rewrite Rabs_R0.
+      apply Rmult_le_pos; [lra|apply Rabs_pos].
+    + apply valid_rnd_N.
+    + unfold Rminus. apply FLT_format_plus_small.
+      * exact prec53_gt_0.
+      * apply BR_format.
+      * apply generic_format_opp, BR_format.
+      * change (53 + -1074)%Z with (-1021)%Z. fold (Rminus (BR x) (BR y)).
+        apply Rlt_le, Rlt_trans with (1 := H). apply bpow_lt. lia.
+Qed.
+
+Lemma fle_inf_fin s b : f_is_finite b = true -> fle (fabs (B754_infinity 53 1024 s)) b = false.
+Proof. destruct b as [sb|sb|sb pl e|sb m e e0]; try discriminate; intros _; destruct sb; reflexivity. Qed.
+
+Lemma bpow_m40 : (bpow radix2 (-40) = / 1099511627776)%R.
+Proof. unfold bpow. simpl Z.pow_pos. lra. Qed.
+
+Theorem within_tolerance_sound x y :
+  f_is_finite x = true -> f_is_finite y = true -> BR x <> 0%R -> BR y <> 0%R ->
+  (bpow radix2 (-900) <= Rmax (Rabs (BR x)) (Rabs (BR y)))%R ->
+  within_tolerance x y tol12 = true ->
+  (Rabs (BR x - BR y) <= (1 + 1 / 10 ^ 15) / 10 ^ 12 * Rmax (Rabs (BR x)) (Rabs (BR y)))%R.
+Proof.
+  intros Hx Hy Hx0 Hy0 HM H. unfold within_tolerance in H.
+  rewrite (feq_zero_fin x Hx), (feq_zero_fin y Hy) in H.
+  rewrite (Req_bool_false _ _ Hx0), (Req_bool_false _ _ Hy0) in H. cbn [orb] in H.
+  destruct (fmax_fabs_R x y Hx Hy) as (FM & RM & _).
+  set (M := Rmax (Rabs (BR x)) (Rabs (BR y))) in *.
+  pose proof tol12_bounds as Htb.
+  destruct (fmul_small tol12 _ tol12_fin FM) as [F2 R2].
+  { rewrite Rabs_pos_eq; lra. }
+  rewrite RM in R2.
+  destruct (fsub_fin_cases x y Hx Hy) as [(F1 & R1 & _)|[(s & E1) _]].
+  - apply fle_fin_inv in H; [|rewrite fabs_fin; exact F1|exact F2].
+    rewrite fabs_R, R1, R2 in H.
+    pose proof (fsub_rel_err x y) as He1.
+    assert (HM0 : (0 <= M)%R).
+    { apply Rle_trans with (2 := HM). apply bpow_ge_0. }
+    assert (HtM : (bpow radix2 (-1022) <= Rabs (BR tol12 * M))%R).
+    { rewrite Rabs_pos_eq by (apply Rmult_le_pos; lra).
+      apply Rle_trans with (bpow radix2 (-40) * bpow radix2 (-900))%R.
+      - rewrite <- bpow_plus. apply bpow_le. lia.
+      - apply Rmult_le_compat.
+        + apply bpow_ge_0.
+        + apply bpow_ge_0.
+        + rewrite bpow_m40, tol12_R. lra.
+        + exact HM. }
+    pose proof (rel_err _ HtM) as He2.
+    rewrite (Rabs_pos_eq (BR tol12 * M)) in He2 by (apply Rmult_le_pos; lra).
+    rewrite tol12_R in *.
+    set (d := (BR x - BR y)%R) in *.
+    set (rd := rnd64R d) in *.
+    set (rt := rnd64R (4951760157141521 / 4951760157141521099596496896 * M)) in *.
+    assert (Hd : (Rabs d <= Rabs rd + Rabs (rd - d))%R).
+    { replace d with (rd + - (rd - d))%R at 1 by lra.
+      eapply Rle_trans; [apply Rabs_triang|]. rewrite Rabs_Ropp. lra. }
+    assert (Hrt : (rt <= 4951760157141521 / 4951760157141521099596496896 * M
+                         + / 9007199254740992 * (4951760157141521 / 4951760157141521099596496896 * M))%R).
+    { pose proof (Rle_abs (rt - 4951760157141521 / 4951760157141521099596496896 * M)) as Hab. lra. }
+    lra.
+  - rewrite E1 in H. rewrite (fle_inf_fin s _ F2) in H. discriminate.
+Qed.
+
+Lemma f64_one_R : BR f64_one = 1%R.
+Proof. exact f64_one_B2R. Qed.
+Lemma f64_one_fin : f_is_finite f64_one = true.
+Proof. exact f64_one_finite. Qed.
+
+Lemma gamma_gt_1 g : f_is_finite g = true -> flt f64_one g = true -> (1 < BR g)%R.
+Proof.
+  intros Hg H. rewrite (flt_fin _ _ f64_one_fin Hg), f64_one_R in H.
+  destruct (Rlt_bool_spec 1 (BR g)) as [H1|H1]; [exact H1|discriminate].
+Qed.
+
+Lemma bpow_m900_le_1 : (bpow radix2 (-900) <= 1)%R.
+Proof. change 1%R with (bpow radix2 0). apply bpow_le. lia. Qed.
+
+(* two mappings that pass the gate have gammas within 2e-12 (relative) *)
+Theorem equals_tolerance_sound a b :
+  f_is_finite (mk_gamma a) = true -> f_is_finite (mk_gamma b) = true ->
+  flt f64_one (mk_gamma a) = true -> flt f64_one (mk_gamma b) = true ->
+  map_equals a b = true ->
+  (Rabs (BR (mk_gamma a) - BR (mk_gamma b)) <= 2 / 10 ^ 12 * Rmax (BR (mk_gamma a)) (BR (mk_gamma b)))%R.
+Proof.
+  intros Fa Fb Ga Gb H. unfold map_equals in H. rewrite !andb_true_iff in H. destruct H as [[_ H] _].
+  pose proof (gamma_gt_1 _ Fa Ga) as Ha1. pose proof (gamma_gt_1 _ Fb Gb) as Hb1.
+  pose proof (within_tolerance_sound _ _ Fa Fb) as S.
+  rewrite !Rabs_pos_eq in S by lra.
+  assert (HM : (1 <= Rmax (BR (mk_gamma a)) (BR (mk_gamma b)))%R).
+  { apply Rle_trans with (2 := Rmax_l _ _). lra. }
+  pose proof bpow_m900_le_1 as Hp.
+  assert (S' := S ltac:(lra) ltac:(lra) ltac:(lra) H). lra.
+Qed.
+
+(* gammas more than 1e-9 apart (relative): the gate is closed, whatever the offsets and kinds *)
+Theorem within_tolerance_separates x y :
+  f_is_finite x = true -> f_is_finite y = true -> BR x <> 0%R -> BR y <> 0%R ->
+  (bpow radix2 (-900) <= Rmax (Rabs (BR x)) (Rabs (BR y)))%R ->
+  (1 / 10 ^ 9 * Rmax (Rabs (BR x)) (Rabs (BR y)) < Rabs (BR x - BR y))%R ->
+  within_tolerance x y tol12 = false.
+Proof.
+  intros Hx Hy Hx0 Hy0 HM Hsep.
+  destruct (within_tolerance x y tol12) eqn:E; [|reflexivity].
+  pose proof (within_tolerance_sound x y Hx Hy Hx0 Hy0 HM E) as S.
+  assert (HM0 : (0 < Rmax (Rabs (BR x)) (Rabs (BR y)))%R).
+  { apply Rlt_le_trans with (2 := HM). apply bpow_gt_0. }
+  lra.
+Qed.
+
+Theorem equals_separates_float a b :
+  f_is_finite (mk_gamma a) = true -> f_is_finite (mk_gamma b) = true ->
+  flt f64_one (mk_gamma a) = true -> flt f64_one (mk_gamma b) = true ->
+  (1 / 10 ^ 9 * Rmax (BR (mk_gamma a)) (BR (mk_gamma b)) < Rabs (BR (mk_gamma a) - BR (mk_gamma b)))%R ->
+  map_equals a b = false.
+Proof.
+  intros Fa Fb Ga Gb Hsep.
+  pose proof (gamma_gt_1 _ Fa Ga) as Ha1. pose proof (gamma_gt_1 _ Fb Gb) as Hb1.
+  unfold map_equals. rewrite (within_tolerance_separates _ _ Fa Fb).
+  - rewrite andb_false_r. reflexivity.
+  - lra.
+  - lra.
+  - rewrite !Rabs_pos_eq by lra. apply Rle_trans with (1 := bpow_m900_le_1).
+    apply Rle_trans with (2 := Rmax_l _ _). lra.
+  - rewrite !Rabs_pos_eq by lra. exact Hsep.
+Qed.
+
+(* ================================================================== *)
+(* 4'. symmetry without the finiteness premises (infinities, NaN)      *)
+(* ================================================================== *)
+Lemma fsub_nan_r a b : f_is_nan b = true -> f_is_nan (fsub a b) = true.
+Proof.
+  destruct b; try discriminate. intros _.
+  unfold fsub, b64_minus, Binary.Bminus, f_is_nan. rewrite Binary.is_nan_BSN2B.
+  destruct a; reflexivity.
+Qed.
+
+Theorem within_tolerance_nan_r x y tol : f_is_nan y = true -> within_tolerance x y tol = false.
+Proof.
+  intros Hy. unfold within_tolerance.
+  rewrite (fle_nan_l (fabs y) tol) by (rewrite fabs_nan; exact Hy).
+  rewrite (fle_nan_l (fabs (fsub x y))) by (rewrite fabs_nan; apply fsub_nan_r; exact Hy).
+  rewrite andb_false_r. destruct (feq x f64_zero || feq y f64_zero); reflexivity.
+Qed.
+
+Lemma wt_inf_inf s1 s2 tol :
+  within_tolerance (B754_infinity 53 1024 s1) (B754_infinity 53 1024 s2) tol =
+  within_tolerance (B754_infinity 53 1024 s2) (B754_infinity 53 1024 s1) tol.
+Proof. destruct s1, s2; reflexivity. Qed.
+
+Lemma wt_inf_fin s y tol : f_is_finite y = true ->
+  within_tolerance (B754_infinity 53 1024 s) y tol = within_tolerance y (B754_infinity 53 1024 s) tol.
+Proof.
+  destruct y as [sy|sy|sy pl e|sy m e e0]; try discriminate; intros _.
+  - unfold within_tolerance. destruct s, sy; cbn [orb];
+    match goal with |- (if ?a || ?b then _ else _) = (if ?c || ?d then _ else _) =>
+      change a with false; change b with true; change c with true; change d with false end;
+    cbv iota; cbn [orb]; apply andb_comm.
+  - destruct s, sy; reflexivity.
+Qed.
+
+Lemma f64_classify x :
+  f_is_nan x = true \/ f_is_finite x = true \/ exists s, x = B754_infinity 53 1024 s.
+Proof.
+  destruct x as [s|s|s pl e|s m e e0].
+  - right. left. reflexivity.
+  - right. right. exists s. reflexivity.
+  - left. reflexivity.
+  - right. left. reflexivity.
+Qed.
+
+Theorem within_tolerance_sym_all x y tol : within_tolerance x y tol = within_tolerance y x tol.
+Proof.
+  destruct (f64_classify x) as [Nx|[Fx|[sx Ex]]].
+  { rewrite (within_tolerance_nan x y tol Nx), (within_tolerance_nan_r y x tol Nx). reflexivity. }
+  - destruct (f64_classify y) as [Ny|[Fy|[sy Ey]]].
+    + rewrite (within_tolerance_nan y x tol Ny), (within_tolerance_nan_r x y tol Ny). reflexivity.
+    + apply within_tolerance_sym; assumption.
+    + subst y. symmetry. apply wt_inf_fin. exact Fx.
+  - subst x. destruct (f64_classify y) as [Ny|[Fy|[sy Ey]]].
+    + rewrite (within_tolerance_nan y _ tol Ny), (within_tolerance_nan_r _ y tol Ny). reflexivity.
+    + apply wt_inf_fin. exact Fy.
+    + subst y. apply wt_inf_inf.
+Qed.
+
+Theorem equals_sym_all a b : map_equals a b = map_equals b a.
+Proof.
+  unfold map_equals. rewrite (N.eqb_sym (mk_kind a) (mk_kind b)).
+  rewrite (within_tolerance_sym_all (mk_gamma a) (mk_gamma b) tol12).
+  rewrite (within_tolerance_sym_all (mk_off a) (mk_off b) tol12). reflexivity.
+Qed.
+
+(* 3'. reflexivity holds exactly on finite values: inf - inf is NaN *)
+Theorem within_tolerance_refl_iff x : within_tolerance x x tol12 = true <-> f_is_finite x = true.
+Proof.
+  split.
+  - intros H. destruct (f64_classify x) as [Nx|[Fx|[sx Ex]]].
+    + rewrite (within_tolerance_nan x x tol12 Nx) in H. discriminate.
+    + exact Fx.
+    + subst x. exfalso. revert H. unfold within_tolerance.
+      rewrite (fle_nan_l (fabs (fsub (B754_infinity 53 1024 sx) (B754_infinity 53 1024 sx)))).
+      * destruct sx; discriminate.
+      * destruct sx; reflexivity.
+  - intros Fx. pose proof tol12_bounds. apply within_tolerance_refl; [exact Fx|exact tol12_fin|lra].
+Qed.
+
+Theorem equals_refl_iff m : map_equals m m = true <-> map_finite m.
+Proof.
+  unfold map_equals, map_finite. rewrite N.eqb_refl. cbn [andb].
+  rewrite andb_true_iff, !within_tolerance_refl_iff. reflexivity.
+Qed.
+
+(* 1 + 3: a finite mapping that went through the wire passes the gate against the original *)
+Theorem roundtrip_equals (m : mapid) (rest : list byte) :
+  kind_ok (mk_kind m) -> flt f64_one (mk_gamma m) = true -> map_finite m ->
+  exists f body m', enc_mapping m = f :: body /\ dec_mapping f (body ++ rest) = DOk m' rest /\
+                    m' = m /\ map_equals m m' = true /\ map_equals m' m = true.
+Proof.
+  intros Hk Hg Hf. destruct (mapping_encode_decode m rest Hk Hg) as (f & body & He & _ & _ & Hd).
+  exists f, body, m. split; [exact He|]. split; [exact Hd|]. split; [reflexivity|].
+  split; apply equals_refl; exact Hf.
 Qed.
